@@ -5,3 +5,4 @@ import CC.Thm.C09
 #print axioms CC.Thm.C09.source_kernels_match
 #print axioms CC.Thm.C09.source_code_match
 #print axioms CC.Thm.C09.source_glue_match
+#print axioms CC.Thm.C09.generated_encrypt_conforms
